@@ -207,10 +207,50 @@ def run_harness(prop, outdir, seed, n, tier, extra=None, timeout=3000):
     return p.returncode
 
 
-def run_driver(cases, out, timeout=3000):
-    with open(cases, "rb") as fi, open(out, "wb") as fo:
-        p = subprocess.run([DRIVER], stdin=fi, stdout=fo, stderr=subprocess.PIPE, timeout=timeout)
-    return p.returncode, p.stderr.decode(errors="replace")[-2000:]
+def run_driver(cases, out, timeout=3000, jobs=None):
+    """pipe the case file through the model driver, dealt round-robin to parallel workers; outputs are
+    re-interleaved so that line i of the output answers line i of the input"""
+    jobs = jobs or min(16, os.cpu_count() or 4)
+    with open(cases, "rb") as f:
+        lines = f.readlines()
+    if len(lines) < 2 * jobs:
+        jobs = 1
+    procs = []
+    for k in range(jobs):
+        chunk = lines[k::jobs]          # round-robin: big real models spread over the workers
+        if not chunk:
+            continue
+        cin, cout = f"{out}.{k}.in", f"{out}.{k}.out"
+        with open(cin, "wb") as f:
+            f.writelines(chunk)
+        procs.append((subprocess.Popen([DRIVER], stdin=open(cin, "rb"), stdout=open(cout, "wb"),
+                                       stderr=subprocess.PIPE), cin, cout))
+    rc, err = 0, ""
+    t_end = time.time() + timeout
+    outs = []
+    if True:
+        for p, cin, cout in procs:
+            try:
+                _, e = p.communicate(timeout=max(1, t_end - time.time()))
+            except subprocess.TimeoutExpired:
+                p.kill()
+                _, e = p.communicate()
+                rc = rc or 124
+            if p.returncode:
+                rc = rc or p.returncode
+                err += e.decode(errors="replace")[-1000:]
+            with open(cout, "rb") as f:
+                outs.append(f.readlines())
+            os.remove(cin)
+            os.remove(cout)
+    with open(out, "wb") as fo:
+        i = 0
+        while any(i < len(o) for o in outs):
+            for o in outs:
+                if i < len(o):
+                    fo.write(o[i])
+            i += 1
+    return rc, err[-2000:]
 
 
 def read_jsonl(path):
